@@ -212,9 +212,11 @@ func (fc *FnCtx) callAsserts(name string, ord int, before bool, args []Val, res 
 		if !before {
 			kind = "assert@after"
 		}
-		goal := ec.boolean(ca.Clause.E)
+		goal := ec.booleanOrUnprovable(ca.Clause.E)
 		fc.oblige(kind, ca.Clause.Label, ca.Clause.Tags, g, goal, where, ca.Clause.Text)
-		fc.assume(g, goal, "asserted above: "+ca.Clause.Text)
+		if goal != smt.False {
+			fc.assume(g, goal, "asserted above: "+ca.Clause.Text)
+		}
 		fc.usedCallAssert[ca.Clause.Label+ca.Clause.Text] = true
 		if imp, ok := ca.Clause.E.(*spec.Binary); !ok || imp.Op != "==>" || ec.boolean(imp.X) != smt.False {
 			fc.usedCallAssert["cover:"+ca.Clause.Label+ca.Clause.Text] = true
